@@ -102,7 +102,12 @@ def run(chk):
         mu0 = X[g.integers(0, N, size=K)] + g.normal(size=(K, D)) * 0.1
         mu0[-1] = mu0[-1] + 1e5                                          # starved component
         var0 = np.ones((K, D)) * (np.var(X) + 1e-3)
-        thr = r.choice([None, 1e-6, 0.5])
+        # floors: none, scalar, and non-uniform ones (per feature; per component and feature) whose entries differ by orders of magnitude
+        thr = r.choice([None, 1e-6, 0.5, "vector", "matrix"])
+        if thr == "vector":
+            thr = [0.5 if d_ % 2 == 0 else 1e-6 for d_ in range(D)]
+        elif thr == "matrix":
+            thr = [[(0.5 if (c_ + d_) % 2 == 0 else 1e-6) for d_ in range(D)] for c_ in range(K)]
         for trainer in ("ml", "map"):
             cfg = dict(w=np.ones(K) / K, mu=mu0, var=var0, thr=thr, sw=sw, eps=eps, cap=1, cthr=None)
             if trainer == "map":
